@@ -136,4 +136,31 @@ Proof.
   - exact (OnceProofs.call_send_failed_closed cl ok nm rq r r' evs H).
 Qed.
 
+(* once a failed write has released the descriptor, DescriptorReady does nothing more *)
+Lemma dead_stops f r bs ok :
+  dead r = true -> step decode method_kind req_ok service f r (OpChunk bs ok) = (f, r, []).
+Proof.
+  intros H. cbn [step]. destruct bs as [|b bs]; [reflexivity|].
+  cbn [feed length]. rewrite H, orb_true_r. reflexivity.
+Qed.
+
 End Final.
+
+(* a write that fails releases the descriptor and runs the close handler, once; nothing is sent *)
+Lemma send_failure cl r m r' evs b :
+  send_msg cl false r m = (r', evs, b) ->
+  b = false /\ sends evs = [] /\
+  (dead r || cl = false -> dead r' = true /\ evs = [EvChanClose]) /\
+  (dead r || cl = true -> r' = r /\ evs = []).
+Proof.
+  unfold send_msg. destruct (dead r || cl); intros H; inversion H; subst; cbn;
+    repeat split; auto; discriminate.
+Qed.
+
+(* the reply handed to the application is the payload of the answer, whatever the reply object held *)
+Lemma reply_is_payload m o :
+  resp_outcome m = Some o -> m_type m = RESPONSE -> o = OReply (m_buf m).
+Proof.
+  unfold resp_outcome. intros H Ht. rewrite Ht in H. cbn in H. inversion H. reflexivity.
+Qed.
+
